@@ -306,6 +306,7 @@ func ruleR3(c *Ctx, id string) {
 				R.Fail(id, "alloctxn.(*AllocTxn).PreCommit|WriteBits("+f+") count", P.Pos(V.PreCommit.Pos()), "each list is written by exactly one WriteBits call", fmt.Sprintf("list %s is written %d times", f, seen[f]))
 			}
 		}
+		rulePreCommitOrder(c, id)
 		ruleWriteBits(c, id)
 	}
 	// (e) PostCommit frees the free lists, PostAbort the alloc lists, on the right allocator
@@ -868,4 +869,64 @@ func funnelBody(c *Ctx, f *ssa.Function, dur func(*ssa.Function) bool) Scope {
 		}
 	}
 	return Scope{Fn: f, S: Subst{}}
+}
+
+// topInstr: the statement of the owner function (first scope) in whose execution
+// instruction in of scope sc runs: in itself, or the call of the helper chain.
+func topInstr(scopes []Scope, sc Scope, in ssa.Instruction) ssa.Instruction {
+	for i := 0; i < 4; i++ {
+		if sc.Via == nil {
+			return in
+		}
+		in = sc.Via
+		found := false
+		for _, s2 := range scopes {
+			if s2.Fn == sc.Via.Parent() {
+				sc, found = s2, true
+				break
+			}
+		}
+		if !found {
+			return in
+		}
+	}
+	return in
+}
+
+// rulePreCommitOrder: a number allocated and given back by the same
+// transaction (indbmap returns an index block it could not use; an inode
+// allocated and then freed by a failing create) is on both lists: the freed bit
+// must be the last one written.
+func rulePreCommitOrder(c *Ctx, id string) {
+	V, P, R := c.V, c.P, c.R
+	if V.PreCommit == nil || V.WriteBits == nil {
+		return
+	}
+	at := map[string]ssa.Instruction{} // list -> the statement of PreCommit that writes it
+	pcScopes := scopesOf(V.PreCommit)
+	for _, sc := range pcScopes {
+		for _, call := range P.CallsIn(sc.Fn, funcIs(V.WriteBits)) {
+			if _, lf, _, _ := loadedFieldS(argN(call, 0), sc.S); lf != "" {
+				at[lf] = topInstr(pcScopes, sc, call)
+			}
+		}
+	}
+	// a number allocated and given back by the same transaction (indbmap returns an index block it could not
+	// use; an inode allocated and then freed by a failing create) is on both lists: the freed bit must be
+	// the last one written
+	for _, pr := range [][2]string{{"allocInums", "freeInums"}, {"allocBnums", "freeBnums"}} {
+		a, f := at[pr[0]], at[pr[1]]
+		if a == nil || f == nil {
+			continue // reported above
+		}
+		key := "alloctxn.(*AllocTxn).PreCommit|" + pr[0] + " written before " + pr[1]
+		var ok bool
+		if a.Parent() == f.Parent() {
+			ok = a != f && MustBefore(a.Parent(), func(in ssa.Instruction) bool { return in == a })(f) && !reachableFrom(f, a)
+		} else {
+			R.Undecided(id, key, P.Pos(f.Pos()), "the two writes are ordered", "the writes of the two lists are in different helpers that are not statements of one function")
+			continue
+		}
+		R.Check(ok, id, key, P.Pos(f.Pos()), "the bits of "+pr[0]+" are written before the bits of "+pr[1]+": a number on both lists ends up free on disk, as it does in memory", "must-precede, never after", "the allocated bits are written after (or not always before) the freed bits: a number allocated and given back in the same transaction stays set in the on-disk bitmap while the in-memory allocator hands it out again - after a restart it is lost")
+	}
 }
